@@ -147,6 +147,12 @@ class Creds:
 
 
 def make_exc(cls):
+    if cls == "XAgain":
+        return OSError(errno.EAGAIN, os.strerror(errno.EAGAIN) + " (injected)")      # BlockingIOError
+    if cls == "XIntr":
+        return OSError(errno.EINTR, os.strerror(errno.EINTR) + " (injected)")        # InterruptedError
+    if cls == "XNoMem":
+        return OSError(errno.ENOMEM, os.strerror(errno.ENOMEM) + " (injected)")
     if cls == "XInUse":
         return OSError(errno.EADDRINUSE, os.strerror(errno.EADDRINUSE) + " (injected)")
     if cls == "XNotAvail":
@@ -168,6 +174,7 @@ class Recorder:
         self.n = 0
         self.fail = fail          # None or (k, cls)
         self.injected = None
+        self.injected_at = {}
         self.cfgpath = cfgpath
         self.fork_parent = fork_parent
         self.named = {}
@@ -203,9 +210,13 @@ class Recorder:
         self.n += 1
         rargs = [self.render(a) for a in args]
         self.attempts.append(name)
-        if self.fail is not None and self.fail[0] == k:
-            self.injected = make_exc(self.fail[1])
-            raise self.injected
+        span = 1 if self.fail is None or len(self.fail) < 3 else self.fail[2]
+        if self.fail is not None and self.fail[0] <= k and (span is None or k < self.fail[0] + span):
+            # fail = (k, class[, span]): calls k .. k+span-1 fail; span None: every call from k on
+            exc = make_exc(self.fail[1])
+            self.injected_at[id(exc)] = (exc, k)
+            self.injected = exc
+            raise exc
         self.trace.append([name, rargs])
         self.creds.apply(name, rargs)
         if result is None:
@@ -413,8 +424,8 @@ def run_case(drv, tmp, entry, opts, fail, fork_parent, start="root"):
         except BaseException as e:  # noqa
             kind = "abort"
             excname = type(e).__name__
-            if rec.injected is not None and e is rec.injected:
-                origin = rec.fail[0]
+            if id(e) in rec.injected_at and rec.injected_at[id(e)][0] is e:
+                origin = rec.injected_at[id(e)][1]
     finally:
         socketserver.socket, real_server.socket = saved_sock
         for f, o in originals.items():
@@ -459,6 +470,11 @@ def op_c19_sweep(job, drv):
                     for cls in list(job["classes"]) + list(extra):
                         out.append({"entry": entry, "opts": opts, "fail": [k, cls], "fork_parent": False, "start": start,
                                     "res": run_case(drv, tmp, entry, opts, [k, cls], False, start)})
+                    # a resource that stays unavailable: the call at k and the following ones keep failing
+                    for span in (cfgjob.get("persistent_spans") or []):
+                        for cls in job.get("persistent_classes", []):
+                            out.append({"entry": entry, "opts": opts, "fail": [k, cls, span], "fork_parent": False,
+                                        "start": start, "res": run_case(drv, tmp, entry, opts, [k, cls, span], False, start)})
     finally:
         shutil.rmtree(tmp, ignore_errors=True)
     return out
